@@ -17,6 +17,9 @@ mod buf;
 
 mod shared_state;
 
+#[cfg(hyperium_h3_verif)]
+pub mod verif_hooks;
+
 #[cfg(feature = "i-implement-a-third-party-backend-and-opt-into-breaking-changes")]
 pub use shared_state::{ConnectionState, SharedState};
 
